@@ -21,6 +21,9 @@ func init() {
 	rnd.Cfg = func(r *rng.R, local int) kv.Config {
 		return kv.Config{Disk: local%2 == 1, Buckets: 1, Handles: 1 + local%4/2, Colls: 2}
 	}
+	big := rnd
+	big.BigBodies = 6
+	big.Steps = 40
 	hk := rnd
 	hk.Keys = hostile
 	hk.Steps = 40
@@ -34,11 +37,12 @@ func init() {
 		Level: "exploration",
 		Rule: "differential simulation against an executable sequential specification with a full read-back (GetRaw, Exists, GetExpiry, GetWithXattrs, GetXattrs, virtual xattrs) before and after every operation; " +
 			"cases = bounded-exhaustive (pre-state setup x op variant x follow-up) sequences plus PRNG-drawn long histories; a cell is distinct if (op variant, pre-state class, outcome class, bucket type) is new",
-		Assumptions: []string{"bodies up to a few hundred bytes plus one MaxDocSize boundary profile", "keys from a small pool plus hostile keys", "expiries far in the future (timer never fires)", "error messages, log output not compared"},
+		Assumptions: []string{"bodies up to a few hundred bytes, plus a profile with 64 KiB - 1 MiB bodies and a MaxDocSize boundary profile", "keys from a small pool plus hostile keys", "expiries far in the future (timer never fires)", "error messages, log output not compared"},
 		Parts: []sup.Part{
 			exhaustivePart("exhaustive", base),
 			randomPart("random", 800, 12000, rnd),
 			randomPart("hostile-keys", 60, 900, hk),
+			randomPart("big-bodies", 40, 400, big),
 			randomPart("maxdocsize", 60, 900, small),
 		},
 		Floor: func(tier string, m *sup.Merged) string {
